@@ -40,6 +40,11 @@ func (a *AST) Build(p *pipeline.Pipeline) error {
 			return nil
 		}
 
+		// The quiet property is common to all nodes (the eval node renders it itself).
+		if _, isEval := node.(*pipeline.EvalNode); node.IsQuiet() && !isEval {
+			function = Dot(function, &ast.FunctionNode{Func: "quiet"})
+		}
+
 		a.Link(node, function)
 		return nil
 	})
